@@ -49,6 +49,8 @@ pub enum SStep {
     SpuriousIn(usize),
     /// simulated time passes (seconds): every clock the server could read jumps ahead
     Sleep(u64),
+    /// the wall clock is stepped by this many seconds (forwards or backwards); the monotonic clock is not
+    ClockStep(i64),
 }
 
 #[derive(Clone, Debug)]
@@ -110,6 +112,7 @@ impl SStep {
             SStep::Fork => a(vec![json::s("fork")]),
             SStep::SpuriousIn(c) => a(vec![json::s("spurious_in"), json::u(*c)]),
             SStep::Sleep(secs) => a(vec![json::s("sleep"), json::u(*secs as usize)]),
+            SStep::ClockStep(secs) => a(vec![json::s("clock_step"), json::i(*secs)]),
         }
     }
     pub fn from_json(j: &J) -> Result<SStep, String> {
@@ -138,6 +141,7 @@ impl SStep {
             "fork" => SStep::Fork,
             "spurious_in" => SStep::SpuriousIn(n(1)?),
             "sleep" => SStep::Sleep(n(1)? as u64),
+            "clock_step" => SStep::ClockStep(a.get(1).and_then(|x| x.int()).ok_or("secs")? as i64),
             _ => return Err(format!("unknown step {}", k)),
         })
     }
@@ -890,6 +894,12 @@ impl ServerSim {
                 simkernel::rawsys::clock::advance(secs.saturating_mul(1_000_000_000));
                 st.fault("F-time-passes");
                 self.sig.u(17);
+                true
+            }
+            SStep::ClockStep(secs) => {
+                simkernel::rawsys::clock::step_realtime(secs.saturating_mul(1_000_000_000));
+                st.fault(if *secs < 0 { "F-wall-clock-stepped-back" } else { "F-wall-clock-stepped-forward" });
+                self.sig.u(18);
                 true
             }
             SStep::Fork => {
